@@ -1,5 +1,6 @@
 //! vfs <PROPERTY> <quick|thorough> [--replay FILE] — engines that need libc interposition.
 mod c02;
+mod c03l;
 mod copymc;
 mod crashmc;
 mod fsmodel;
@@ -31,6 +32,7 @@ fn main() {
     "C01" => crashmc::run_c01(&ctx),
     "C02" => c02::run_c02(&ctx),
     "C28" => copymc::run(&ctx),
+    "C03" => c03l::run(&ctx),
     _ => {
       eprintln!("unknown property {prop}");
       2
